@@ -46,7 +46,8 @@ class Matrix(Qube):
             if isinstance(arg, Vector) and arg._drank_ == 1:
                 return arg.join_items([Matrix])
 
-            arg = Matrix(arg._values_, arg._mask_, example=arg)
+            arg = Matrix(arg._values_, arg._mask_, derivs=arg._derivs_,
+                         example=arg)
             if recursive:
                 return arg
             return arg.wod
